@@ -8,6 +8,7 @@ package main
 // implementation did, independently of the Coq model.
 
 import (
+	"math"
 	"fmt"
 	"math/big"
 	"os"
@@ -40,6 +41,7 @@ type c03File struct {
 	Interval int64     `json:"interval"`
 	Size     int64     `json:"size"`
 	Slots    []c03Slot `json:"slots"`
+	Expires  int64     `json:"expires,omitempty"` // pay-once files carry their end block; the reward block does not read it
 }
 
 type c03Coin struct {
@@ -209,7 +211,7 @@ func c03RunSpec(r *RunCtx, e *Env, sp c03Spec) {
 	}
 	refs := []fileRef{}
 	for i, fs := range sp.Files {
-		f := storagetypes.UnifiedFile{Merkle: []byte(fmt.Sprintf("merkle-%02d", i)), Owner: Acct(60).String(), Start: fs.Start, Expires: 0,
+		f := storagetypes.UnifiedFile{Merkle: []byte(fmt.Sprintf("merkle-%02d", i)), Owner: Acct(60).String(), Start: fs.Start, Expires: fs.Expires,
 			FileSize: fs.Size, ProofInterval: fs.Interval, ProofType: 0, Proofs: []string{}, MaxProofs: int64(len(fs.Slots)) + 1, Note: "c03"}
 		ref := fileRef{keyID: map[string]uint64{}, spec: fs}
 		for _, sl := range fs.Slots {
@@ -664,6 +666,46 @@ func runC03(r *RunCtx) error {
 		}
 		c03RunSpec(r, e, sp)
 	}
+	// what stateless validation admits: sizes around MaxInt64/MaxProofs and sizes whose product with the replication
+	// count wraps around int64 to a small positive number (every other field valid)
+	{
+		two64 := new(big.Int).Lsh(big.NewInt(1), 64)
+		sizes := []int64{1, 2, 1024, 1 << 31, 1 << 40, 1 << 62, math.MaxInt64, 0, -1, math.MinInt64}
+		mps := []int64{1, 2, 3, 5, 7, 1000, 1 << 20, 1 << 40, math.MaxInt64, 0, -1}
+		for _, mp := range mps {
+			if mp > 0 {
+				sizes = append(sizes, math.MaxInt64/mp, math.MaxInt64/mp+1, math.MaxInt64/mp-1)
+				for _, k := range []int64{1, 2, 3, 1000} { // ceil((2^64 + k) / mp): the product wraps to k..k+mp-1
+					v := new(big.Int).Add(two64, big.NewInt(k+mp-1))
+					v.Div(v, big.NewInt(mp))
+					if v.IsInt64() {
+						sizes = append(sizes, v.Int64())
+					}
+				}
+			}
+		}
+		seenVB := map[[2]int64]bool{}
+		for _, mp := range mps {
+			for _, sz := range sizes {
+				if seenVB[[2]int64{sz, mp}] {
+					continue
+				}
+				seenVB[[2]int64{sz, mp}] = true
+				m := &storagetypes.MsgPostFile{Creator: Acct(60).String(), Merkle: []byte("m"), FileSize: sz, ProofType: 0, MaxProofs: mp, Expires: 0, Note: "{}"}
+				acc := m.ValidateBasic() == nil
+				d := map[string]interface{}{"fn": "MsgPostFile.ValidateBasic", "file_size": sz, "max_proofs": mp, "accepted": acc}
+				r.Case("rm", fmt.Sprintf("PostVB %s %s %s", cZ(sz), cZ(mp), cBool(acc)), d)
+				r.Count(fmt.Sprintf("vb:%d:%d", sz, mp), acc)
+				r.Hist("validatebasic", fmt.Sprint(acc))
+				if acc {
+					prod := new(big.Int).Mul(big.NewInt(sz), big.NewInt(mp))
+					if sz <= 0 || mp <= 0 || !prod.IsInt64() {
+						r.Finding("C03/postfile-admits-overflowing-footprint", fmt.Sprintf("MsgPostFile.ValidateBasic accepts FileSize %d with MaxProofs %d: the footprint %s the reward walk multiplies out does not fit int64 (its divisor wraps around)", sz, mp, prod), d)
+					}
+				}
+			}
+		}
+	}
 	cnt := 0
 	for n := 1; n <= 5; n++ {
 		perms := c03Perms(n)
@@ -684,6 +726,9 @@ func runC03(r *RunCtx) error {
 				h := int64(100 * (2 + cnt%5))
 				sp := c03Spec{Tag: fmt.Sprintf("det:n%d:b%d:p%v:f%d", n, bits, perm, nfiles), CW: 100, H: h, Provs: c03StdProvs(n), Gauges: stdG(cnt)}
 				sp.Files = append(sp.Files, c03PatternFile(h, perm, bits, int64(1000*(1+cnt%4)), cnt%2))
+				if cnt%3 == 1 { // a pay-once file at, just before or long after its end block: its provers are judged like any others
+					sp.Files[0].Expires = []int64{h - 1, h, h + 1, 1, h - 99}[cnt%5]
+				}
 				if nfiles >= 2 { // same provers in reverse order, complementary pattern, another size
 					rev := []int{}
 					for i := n - 1; i >= 0; i-- {
